@@ -125,6 +125,9 @@ def check_C01(tier, seed, replay=None):
     run_o = Run("C01", tier, seed)
     sub = [g for g in groups if g.gi > len(trees)][: 300 if tier == "quick" else 2000]
     sub2 = F.random_groups(seed, len(sub), cfg, gi0=1)
+    sub2 += c09_idiom_groups(seed + 21, 150 if tier == "quick" else 1000, len(sub2) + 1)      # leaf rules used several times by one rule
+    inputs = inputs + [[random.Random(seed + k_).choice([F.A, F.B, 99, 100, 101, 102, F.UA, 66, 95, 36, 48, 49]) for _ in range(1 + k_ % 4)] for k_ in range(120)]
+    allin = list(range(len(inputs)))
     d_o, tot_o = run_o.execute(sub2, inputs, options, lambda g: [(ii, 1 if g.maydiverge else 0) for ii in allin], [["-optimize-grammar"], ["-optimize-grammar", "-optimize-parser"]],
                                cmp=dict(norm=True, errs=False), gen_flags_for=lambda pk: ["-alternate-entrypoints", ",".join(g.sname() for g in pk)])
     for d in d_o:
